@@ -1,0 +1,37 @@
+//go:build verif
+
+package logger
+
+// Contracts for govc (contract-based deductive verification; see /verif/DESIGN.md).
+// This file holds only comments and is compiled only with -tags verif.
+//
+// C08, the logger registry: globalLoggers is only touched with globalLoggersLock held; NewLogger never
+// replaces a registered logger and changes no other entry; getLoggers hands out a fresh map and leaves the
+// registry untouched — for all interleavings of lock-respecting goroutines (monitor rule).
+
+//@ globallock globalLoggersLock protects globalLoggers
+//@ globallockinv globalLoggersLock globalLoggers != nil
+//@ globallockinv globalLoggersLock forall k string :: haskey(globalLoggers, k) ==> globalLoggers[k] != nil
+
+//@ func newDaprLogger
+//@   tags C08
+//@   skip
+//@   modifies nothing
+//@   ensures result != nil && fresh(result)
+
+//@ func NewLogger
+//@   tags C08 C07
+//@   ensures [C08.logger.registered] at(U, haskey(globalLoggers, name)) && result == at(U, globalLoggers[name]) && result != nil
+//@   ensures [C08.logger.neverreplaced] at(L, haskey(globalLoggers, name)) ==> result == at(L, globalLoggers[name])
+//@   ensures [C08.logger.others] forall k string :: k != name ==> (at(U, haskey(globalLoggers, k)) == at(L, haskey(globalLoggers, k)) && at(U, globalLoggers[k]) == at(L, globalLoggers[k]))
+//@   at call Lock#0 label L
+//@   at before call Unlock#0 label U
+
+//@ func getLoggers
+//@   tags C08 C07
+//@   modifies nothing
+//@   ensures [C08.logger.copy] fresh(result) && result != nil
+//@   ensures [C08.logger.copy.pure] at(U, globalLoggers) == at(L, globalLoggers)
+//@   loop 0 invariant l != nil && fresh(l) && heldr(globalLoggersLock)
+//@   at call RLock#0 label L
+//@   at before call RUnlock#0 label U
